@@ -76,7 +76,7 @@ def build_text(prog, variant):
     em._seq(prog, body_lines, "  ", [])
     pre, post = [], []
     args = [f"%a : {MT}", f"%b : {MT}"]
-    if variant == "arg" or variant.startswith("cfor"):
+    if variant in ("arg", "arg3") or variant.startswith("cfor"):
         args.append(f"%c : {MT}")
     elif variant == "alloc":
         pre.append(f"  %c = memref.alloc() : {MT}")
@@ -138,9 +138,12 @@ def space(tier):
             if ST.count(p, lambda s: s[0] == "D") != 1:
                 continue
             out.append((p, "arg"))
+            out.append((p, "arg3"))
     for p in progs:
         uses_c = ST.count(p, lambda s: s[0] in ("D", "C") and "c" in s[1:]) > 0
         out.append((p, "arg"))
+        if tier == "quick" and ST.count(p, lambda s: s[0] in ("D", "C")) == 2:
+            out.append((p, "arg3"))
         if ST.nfor(p) and ST.count(p, lambda s: s[0] in ("D", "C")) <= 2:
             out += [(p, v) for v in ("cfor64", "cfor44", "cfor84", "cfor173")]
         if tier == "quick" and ST.nif(p):
@@ -216,7 +219,7 @@ def make_args(variant, trips, conds):
     a = View(("a", 0), 4, 0, [8], [1], 0x1000)
     b = View(("b", 0), 4, 0, [8], [1], 0x2000)
     args = [a, b]
-    if variant in ("arg", "sv3") or variant.startswith("cfor"):
+    if variant in ("arg", "arg3", "sv3") or variant.startswith("cfor"):
         args.append(View(("c", 0), 4, 0, [8], [1], 0x3000))
     elif variant in ("sv", "sv2"):
         args.append(View(("c", 0), 4, 0, [16], [1], 0x3000))
@@ -234,9 +237,10 @@ def evaluate(case, only=None, tier=None) -> CaseResult:
     except Exception as e:
         raise RuntimeError(f"generator bug: {e}\n{text}")
     b = BOUNDS[tier]
-    ncores = b["cores"]
+    # variant 'arg3': three cores (compute = core 0, DM = core 2, core 1 idle but at every barrier) + snax-to-func
+    ncores = 3 if variant == "arg3" else b["cores"]
     out = base.clone()
-    pipeline = f"insert-sync-barrier,dispatch-regions{{nb_cores={ncores}}}" + (",snax-to-func" if b["to_func"] or variant == "alloc_mid" else "")
+    pipeline = f"insert-sync-barrier,dispatch-regions{{nb_cores={ncores}}}" + (",snax-to-func" if b["to_func"] or variant in ("alloc_mid", "arg3") else "")
     try:
         common.run_pipeline(out, pipeline)
     except Exception as e:
